@@ -48,6 +48,52 @@ def _fmt_calls(F, token):
     return out
 
 
+def writer_closure(prog, name):
+    """the writer and the private helpers (static functions of the same file) it calls, transitively: a writer split into
+    add_header / add_sequence_lines / print_buffer helpers is read as one unit"""
+    F = prog.fn(name)
+    out = [F]
+    work = [F]
+    while work:
+        G = work.pop()
+        for c in G.body.calls():
+            H = prog.fn(prog.resolve(c.callee, G.file), required=False) if c.callee else None
+            if H is not None and H.body is not None and H.static and H.file == F.file and H not in out and \
+                    not H.name.startswith(("write_msa_", "read_")):
+                out.append(H)
+                work.append(H)
+    return out
+
+
+def xsources(prog, closure, F, expr, depth=0):
+    """reaching sources of expr in F, written in terms of the writer at the root of the closure: where a source mentions a
+    parameter of a helper, the argument of the helper's call site(s) is substituted (all call sites inside the closure)"""
+    import re as _re
+    out = set()
+    for t in reaching_sources(F, expr):
+        if F is closure[0] or depth > 3:
+            out.add(t)
+            continue
+        names = [p_["name"] for p_ in F.params if _re.search(r"(?<![\w>.])%s\b" % _re.escape(p_["name"]), t)]
+        if not names:
+            out.add(t)
+            continue
+        sites = [(G, c) for G in closure for c in G.body.calls(F.name)]
+        if not sites:
+            out.add(t)
+            continue
+        for G, c in sites:
+            tt = {t}
+            for nm in names:
+                idx = F.param_index(nm)
+                if idx is None or idx >= len(c.args):
+                    continue
+                subs = xsources(prog, closure, G, c.args[idx], depth + 1)
+                tt = {_re.sub(r"(?<![\w>.])%s\b" % _re.escape(nm), sub, x) for x in tt for sub in subs}
+            out |= tt
+    return out
+
+
 def body_bound(prog, F):
     """the expression the row cursor is compared with to stop emitting residues"""
     cursors = {}
@@ -71,22 +117,24 @@ def body_bound(prog, F):
 
 
 def r15(ck, prog):
-    F = prog.fn("write_msa_msf")
-    cursors, bounds = body_bound(prog, F)
-    if not cursors or not bounds:
+    CL = writer_closure(prog, "write_msa_msf")
+    holders = [(G,) + body_bound(prog, G) for G in CL]
+    holders = [h for h in holders if h[1] and h[2]]
+    if len(holders) != 1:
         raise AnalysisBroken("R15a slot: row-emission cursor / bound not found in write_msa_msf")
+    FB, cursors, bounds = holders[0]
     bsrc = set()
     for b, e in bounds:
-        bsrc |= reaching_sources(F, e)
-        ck.inst("R15a", site(prog, b, "body bound"), "rows are emitted until %s (source %s)" % (b.text(), sorted(reaching_sources(F, e))), prog.config)
+        bsrc |= xsources(prog, CL, FB, e)
+        ck.inst("R15a", site(prog, b, "body bound"), "rows are emitted until %s (source %s)" % (b.text(), sorted(xsources(prog, CL, FB, e))), prog.config)
     n = 0
     for token in ("MSF:", "Len:"):
-        hits = _fmt_calls(F, token)
+        hits = [(G, h) for G in CL for h in _fmt_calls(G, token)]
         if not hits:
             raise AnalysisBroken("R15a slot: no format string with '%s' in write_msa_msf" % token)
-        for c, conv, arg in hits:
+        for F, (c, conv, arg) in hits:
             n += 1
-            src = reaching_sources(F, arg)
+            src = xsources(prog, CL, F, arg)
             where = site(prog, c, token)
             ck.inst("R15a", where, "header prints %s after '%s' (source %s)" % (arg.text(), token, sorted(src)), prog.config)
             if src != bsrc or len(src) != 1:
@@ -96,11 +144,11 @@ def r15(ck, prog):
     ck.floor("R15a", n, 2, "header length fields")
     # --- R15b
     nchk = 0
-    for c in F.body.calls("GCGchecksum"):
+    for F, c in [(G, c) for G in CL for c in G.body.calls("GCGchecksum")]:
         nchk += 1
         where = site(prog, c, "GCGchecksum")
         row, ln = c.args[0], c.args[1]
-        src = reaching_sources(F, ln)
+        src = xsources(prog, CL, F, ln)
         ck.inst("R15b", where, "per-row checksum over %s of %s (source %s)" % (ln.text(), row.text(), sorted(src)), prog.config)
         if src != bsrc:
             ck.violation("R15b", "R15b/write_msa_msf/row-span", where,
@@ -119,14 +167,14 @@ def r15(ck, prog):
                 if idx_n != idx_r:
                     ck.violation("R15b", "R15b/write_msa_msf/row-pairing", where,
                                  "Name: is printed for sequence [%s] but Check: for [%s]" % (idx_n, idx_r), prog.config)
-    for c in F.body.calls("GCGMultchecksum"):
+    for F, c in [(G, c) for G in CL for c in G.body.calls("GCGMultchecksum")]:
         nchk += 1
         where = site(prog, c, "GCGMultchecksum")
         if len(c.args) < 2:
             ck.violation("R15b", "R15b/write_msa_msf/total-span", where,
                          "the overall Check: is computed by GCGMultchecksum without the alignment length: it cannot cover the rows as written", prog.config)
             continue
-        src = reaching_sources(F, c.args[1])
+        src = xsources(prog, CL, F, c.args[1])
         ck.inst("R15b", where, "overall checksum over %s (source %s)" % (c.args[1].text(), sorted(src)), prog.config)
         if src != bsrc:
             ck.violation("R15b", "R15b/write_msa_msf/total-span", where,
@@ -227,7 +275,7 @@ def r15(ck, prog):
         return out
 
     tops = []
-    for n_ in F.body.walk():
+    for n_ in [x for G in CL for x in G.body.walk()]:
         if is_choice(n_) and not any(is_choice(a) and a is not n_ and n_.role != "cond" for a in n_.ancestors()):
             tops.append(n_)
     if len(tops) < 2:
@@ -301,8 +349,7 @@ def r15i(ck, prog):
     of msa_seq.name in write_msa_msf / write_msa_clu that has a field width also has a precision"""
     import re
     n = 0
-    for name in ("write_msa_msf", "write_msa_clu"):
-        F = prog.fn(name)
+    for name, F in [(nm, G) for nm in ("write_msa_msf", "write_msa_clu") for G in writer_closure(prog, nm)]:
         from .c06 import _printf_like
         for c in F.body.calls():
             fi = next((i for i, a in enumerate(c.args) if a.strip(casts=True).k == "StringLiteral" and "%" in a.strip(casts=True).d.get("s", "")), None)
@@ -341,8 +388,7 @@ def r15l(ck, prog):
     from ..bytedom import Sym, ev
     from ..affine import loop_range
     n = 0
-    for name in ("write_msa_msf", "write_msa_clu"):
-        F = prog.fn(name)
+    for name, F in [(nm, G) for nm in ("write_msa_msf", "write_msa_clu") for G in writer_closure(prog, nm)]:
         for a in F.body.walk():
             if not (a.k == "BinaryOperator" and a.d["op"] == "="):
                 continue
@@ -401,6 +447,19 @@ def r15l(ck, prog):
                         call = prev.kids[1].strip(casts=True)
                         if call.k == "CallExpr" and call.callee in ("strnlen", "strlen") and call.args[0].strip(casts=True).text() == r.kids[0].strip(casts=True).text():
                             ok = True
+                            # the line the label goes into was sized from a measure of the names: the label must not be measured
+                            # more generously (strlen, or a larger cap) than that
+                            capL = const_value(call.args[1]) if call.callee == "strnlen" and len(call.args) > 1 else None
+                            sizing = [c_ for G in writer_closure(prog, name) for c_ in G.body.calls("strnlen", "strlen")
+                                      if c_ is not call and any(m.d.get("field") == "name" and m.d.get("rec") == "msa_seq" for m in c_.args[0].find("MemberExpr"))
+                                      and any(a_.k == "BinaryOperator" and a_.d["op"] == "=" and "max" in a_.kids[0].text().lower() for a_ in c_.ancestors())]
+                            caps = [const_value(c_.args[1]) for c_ in sizing if c_.callee == "strnlen" and len(c_.args) > 1]
+                            if sizing and all(c_.callee == "strnlen" for c_ in sizing) and caps and all(v is not None for v in caps):
+                                if capL is None and call.callee == "strlen" or (capL is not None and capL > min(caps)):
+                                    ck.violation("R15l", "R15l/%s/label-longer-than-line" % name, site(prog, call, "label length"),
+                                                 "%s measures the label with %s but sized the output line from strnlen(name, %d): a name longer "
+                                                 "than %d characters (FASTA names are as long as their header line) is copied past the end of the "
+                                                 "line buffer" % (name, call.text()[:40], min(caps), min(caps)), prog.config)
             if not ok:
                 raise AnalysisBroken("R15l: where the label loop of %s ends is not understood" % name)
             ck.inst("R15l", where, "%s: the label is the name up to its terminator" % name, prog.config)
@@ -497,10 +556,11 @@ def r15e(ck, prog):
                              "coverage of all alnlen columns cannot be decided for the new shape")
     # block writers: cursor-controlled emission
     for name in ("write_msa_clu", "write_msa_msf"):
-        F = prog.fn(name)
-        cursors, bounds = body_bound(prog, F)
-        if len(cursors) != 1:
-            raise AnalysisBroken("R15e: %s: row cursor not unique (%s)" % (name, cursors))
+        holders = [(G,) + body_bound(prog, G) for G in writer_closure(prog, name)]
+        holders = [h for h in holders if h[1]]
+        if len(holders) != 1 or len(holders[0][1]) != 1:
+            raise AnalysisBroken("R15e: %s: row cursor not unique (%s)" % (name, [(h[0].name, h[1]) for h in holders]))
+        F, cursors, bounds = holders[0]
         did, cname = list(cursors.items())[0]
         mods = []
         for a in F.body.walk():
@@ -560,48 +620,78 @@ def r15f(ck, prog):
             ck.violation("R15f", "R15f/%s/case" % F.name, where,
                          "%s sums the residues without folding them to upper case: rows with lower-case letters get a checksum that is "
                          "not the GCG checksum of the row" % F.name, prog.config)
+    # the checksums are sums reduced modulo 10000 step by step: the reduction does not commute with splitting the sum over
+    # threads, so neither checksum function may carry an OpenMP work-sharing directive with a reduction over its accumulator
+    for F in prog.lib_functions():
+        if not F.name.startswith("GCG"):
+            continue
+        for d in F.body.walk():
+            if "omp" in d.d and any(c["kind"] == "reduction" for c in d.d.get("clauses", [])):
+                accs = {e.get("did") for c in d.d.get("clauses", []) if c["kind"] == "reduction" for e in c.get("exprs", [])}
+                # a final reduction of the combined value makes it right again:  chk %= 10000 / return chk % 10000 behind the loop
+                final = [x for x in F.body.walk() if not x.within(d) and x.loc and d.loc and x.loc[1] > d.loc[1] and
+                         ((x.k == "BinaryOperator" and x.d["op"] == "%") or (x.k == "CompoundAssignOperator" and x.d["op"] == "%=")) and
+                         any(r.k == "DeclRefExpr" and r.d.get("did") in accs for r in x.kids[0].walk())]
+                if final:
+                    ck.inst("R15f", site(prog, d, "omp " + d.d["omp"]), "%s: reduction over the accumulator, reduced again behind the loop" % F.name, prog.config)
+                    continue
+                ck.violation("R15f", "R15f/%s/omp-reduction" % F.name, site(prog, d, "omp " + d.d["omp"]),
+                             "%s accumulates its checksum under an OpenMP reduction: every thread reduces its private partial sum modulo "
+                             "10000 and the partial sums are then added without a final reduction - with several threads the value "
+                             "printed after 'Check:' exceeds the sum of the row checksums modulo 10000" % F.name, prog.config)
     ck.floor("R15f", n, 1, "GCG checksum functions")
 
 
 def r15g(ck, prog):
     """output lines are ordered by (block, seq_id): sequence rows must carry their position in the msa as seq_id, the
     block separator the value numseq, header lines negative ids - anything else lets rows sort behind the separator"""
+    from ..affine import loop_range
+    from ..util import local_defs
     n = 0
+
+    def key_ok(CL, F, r, at, depth=0):
+        """is the value r (an expression of F, used at node `at`) a legitimate ordering key?"""
+        r = r.strip(casts=True)
+        if r.cv is not None and r.cv < 0:
+            return True
+        if r.k == "MemberExpr" and r.d.get("field") == "numseq":
+            return True
+        if r.k != "DeclRefExpr":
+            return False
+        if r.d.get("dk") == "Parm" and F is not CL[0] and depth < 3:
+            idx = F.param_index(r.d["name"])
+            sites = [(G, c) for G in CL for c in G.body.calls(F.name)]
+            return idx is not None and bool(sites) and all(idx < len(c.args) and key_ok(CL, G, c.args[idx], c, depth + 1) for G, c in sites)
+        for lp in [x for x in at.ancestors() if x.k == "ForStmt"]:
+            rg = loop_range(lp)
+            if rg and rg[0] == r.text() and rg[1].is_const() and rg[1].c == 0 and list(rg[2].t) == ["msa->numseq"]:
+                return True
+        # header counter: a local initialised to a negative value and only incremented
+        if r.d.get("dk") == "Var":
+            inits = [x for x, nn in local_defs(F, r.d["did"]) if x is not None]
+            if inits and all(any(k.k == "UnaryOperator" and k.d["op"] == "-" for k in x.walk()) or (x.cv is not None and x.cv < 0) for x in inits):
+                return True
+        return False
     for name in ("write_msa_clu", "write_msa_msf"):
-        F = prog.fn(name)
-        for a in F.body.find("BinaryOperator"):
-            if a.d["op"] != "=":
-                continue
-            l = a.kids[0].strip()
-            if not (l.k == "MemberExpr" and l.d.get("field") == "seq_id" and l.d.get("rec") == "out_line"):
-                continue
-            n += 1
-            r = a.kids[1].strip(casts=True)
-            where = site(prog, a, "seq_id")
-            loops = [x for x in a.ancestors() if x.k == "ForStmt"]
-            from ..affine import loop_range
-            ok = False
-            what = r.text()
-            if r.cv is not None and r.cv < 0:
-                ok = True
-            elif r.k == "MemberExpr" and r.d.get("field") == "numseq":
-                ok = True
-            elif r.k == "DeclRefExpr":
-                for lp in loops:
-                    rg = loop_range(lp)
-                    if rg and rg[0] == r.text() and rg[1].is_const() and rg[1].c == 0 and list(rg[2].t) == ["msa->numseq"]:
-                        ok = True
-                if not ok:
-                    # header counter: a local initialised to a negative value and only incremented
-                    from ..util import local_defs
-                    defs = local_defs(F, r.d["did"])
-                    inits = [x for x, nn in defs if x is not None]
-                    if inits and all(any(k.k == "UnaryOperator" and k.d["op"] == "-" for k in x.walk()) or (x.cv is not None and x.cv < 0) for x in inits):
-                        ok = True
-            ck.inst("R15g", where, "%s: out_line.seq_id = %s" % (name, what), prog.config)
-            if not ok:
-                ck.violation("R15g", "R15g/%s/seq_id" % name, where,
-                             "%s orders an output line by %s: rows must be keyed by their position 0..numseq-1 in the msa (the block "
-                             "separator is keyed numseq); any other key can sort a row behind the separator of its block" % (name, what),
-                             prog.config)
-    ck.floor("R15g", n, 8, "line ordering keys")
+        CL = writer_closure(prog, name)
+        for F in CL:
+            if any("out_line" in c_.text() for c_ in F.body.calls("malloc", "realloc", "calloc")):
+                continue                # the constructor / grower of the line buffer: initial values of fresh lines
+            for a in F.body.find("BinaryOperator"):
+                if a.d["op"] != "=":
+                    continue
+                l = a.kids[0].strip()
+                if not (l.k == "MemberExpr" and l.d.get("field") == "seq_id" and l.d.get("rec") == "out_line"):
+                    continue
+                n += 1
+                what = a.kids[1].strip(casts=True).text()
+                where = site(prog, a, "seq_id")
+                ck.inst("R15g", where, "%s: out_line.seq_id = %s" % (name, what), prog.config)
+                if not key_ok(CL, F, a.kids[1], a):
+                    ck.violation("R15g", "R15g/%s/seq_id" % name, where,
+                                 "%s orders an output line by %s: rows must be keyed by their position 0..numseq-1 in the msa (the block "
+                                 "separator is keyed numseq); any other key can sort a row behind the separator of its block" % (name, what),
+                                 prog.config)
+    ck.floor("R15g", n, 2, "line ordering keys")
+
+
